@@ -41,13 +41,16 @@ def stepName (m : Int) : String :=
 
 -- ------------------------------------------------------------------ chroma vectors
 
-/-- a chroma count vector (`np.zeros(12, dtype=int)`), as a function of the chroma -/
-abbrev CVec := Nat → Int
+/-- a chroma count vector (`np.zeros(12, dtype=int)`), as a function of the chroma
+    (a structure, so that compiled code builds each vector once instead of re-running the loop
+    on every read) -/
+structure CVec where
+  get : Nat → Int
 
-def CVec.zero : CVec := fun _ => 0
+def CVec.zero : CVec := ⟨fun _ => 0⟩
 
 /-- `v[k] = v[k] + d` -/
-def CVec.bump (v : CVec) (k : Nat) (d : Int) : CVec := fun c => if c = k then v c + d else v c
+def CVec.bump (v : CVec) (k : Nat) (d : Int) : CVec := ⟨fun c => if c = k then v.get c + d else v.get c⟩
 
 /-- `v[chroma[k]] += d`; the index is always in range where the code uses it
     (see `Proofs/C17Window.lean`), `none` would be an IndexError -/
@@ -91,7 +94,7 @@ def tonicSet (c0 cj : Int) (m : Nat) : List Nat :=
 
 /-- `morph_strength[m]` (lines 22-23) -/
 def strength (c0 cj : Int) (v : CVec) (m : Nat) : Int :=
-  ((tonicSet c0 cj m).map v).sum
+  ((tonicSet c0 cj m).map v.get).sum
 
 /-- `np.argmax(morph_strength)` (line 24): first maximum over m = 0..6 -/
 def morphOf (c0 cj : Int) (v : CVec) : Nat :=
@@ -106,20 +109,20 @@ def morphArray (c0 : Nat) (chroma : List Nat) (vecs : List CVec) : List Nat :=
 
 def absQ (x : Rat) : Rat := if x < 0 then -x else x
 
-/-- the three candidate octaves `(o, o+1, o-1)`, `o = floor(cp / 12)` -/
-def octCands (cp : Int) : Int × Int × Int := (cp / 12, cp / 12 + 1, cp / 12 - 1)
-
 /-- `diffs = abs(cp - mps)` for the three candidates -/
 def octDiff (cp morph cand : Int) : Rat :=
   absQ (((cp / 12 : Int) : Rat) + ((cp % 12 : Int) : Rat) / 12 - ((cand : Rat) + (morph : Rat) / 7))
 
-/-- `compute_morphetic_pitch` for one note: nearest of the three candidate octaves
-    (`diffs.argmin(1)`: first minimum) -/
+/-- choice among the candidate octaves `(o, o+1, o-1)` given their three distances
+    (`diffs.argmin(1)`: first minimum), and the resulting morphetic pitch -/
+def morpheticPitchOf (o : Int) (d0 d1 d2 : Rat) (morph : Int) : Int :=
+  let k := argBestNE (fun a b => decide (a < b)) d0 [d1, d2]
+  morph + 7 * (if k = 0 then o else if k = 1 then o + 1 else o - 1)
+
+/-- `compute_morphetic_pitch` for one note: nearest of the three candidate octaves -/
 def morpheticPitch (cp : Int) (morph : Int) : Int :=
-  let (o0, o1, o2) := octCands cp
-  let k := argBestNE (fun a b => decide (a < b)) (octDiff cp morph o0) [octDiff cp morph o1, octDiff cp morph o2]
-  let best := if k = 0 then o0 else if k = 1 then o1 else o2
-  morph + 7 * best
+  morpheticPitchOf (cp / 12) (octDiff cp morph (cp / 12)) (octDiff cp morph (cp / 12 + 1))
+    (octDiff cp morph (cp / 12 - 1)) morph
 
 /-- `p2pn(c_pitch, m_pitch)`: (step, alter, octave) -/
 def p2pn (c mp : Int) : String × Int × Int :=
